@@ -143,6 +143,19 @@ static int cmd_run(int argc, char **argv) {
     printf("BEGIN %ld %llu\n", i, (unsigned long long)seed); fflush(stdout);
     Plan p = sc->gen(seed, tier);
     p.prop = prop; p.seed = seed; p.tier = tier;
+    pid_t child = -1;
+    if (sc->fork_per_run) {
+      // pristine process image per run: this dispatcher never enters libopus; the child does the run and prints the END line
+      fflush(stdout); fflush(stderr);
+      child = fork();
+      if (child > 0) {
+        int st = 0; waitpid(child, &st, 0);
+        if (WIFEXITED(st) && WEXITSTATUS(st) == 0) continue;
+        // crashed / hung inside the run: die the same way so the driver attributes it to the last BEGIN
+        fflush(stdout);
+        _exit(WIFEXITED(st) ? WEXITSTATUS(st) : 79);
+      }
+    }
     Outcome o = execute(sc, p);
     bool nontrivial = o.run.fired && o.run.api_ok >= 5;
     printf("END %ld %llu %s %s %016llx %016llx %d %ld %ld %s", i, (unsigned long long)seed, o.status.c_str(),
@@ -156,6 +169,7 @@ static int cmd_run(int argc, char **argv) {
       printf("SAMPLE %ld %s\n", i, esc(t).c_str());
     }
     fflush(stdout);
+    if (child == 0) _exit(0);
   }
   return 0;
 }
